@@ -64,9 +64,11 @@ def decode_sent(of, of01, sock):
 
 
 def barrier_xid(of, of01, sock):
+  # the handshake awaits the reply to the barrier it sent last (a repeated features reply restarts that step)
+  r = None
   for m in decode_sent(of, of01, sock):
-    if isinstance(m, of.ofp_barrier_request): return m.xid
-  return None
+    if isinstance(m, of.ofp_barrier_request): r = m.xid
+  return r
 
 
 def feed(con, sock, msg):
